@@ -125,6 +125,11 @@ func ReadEnvironment(data json.RawMessage) (Environment, error) {
 	env := NewBuilder().Build().(*environment)
 	envelope := env.toEnvelope()
 
+	// unmarshalling writes into an existing number format rather than replacing it, so give it a copy of the default
+	// one rather than the shared default itself
+	numberFormat := *envelope.NumberFormat
+	envelope.NumberFormat = &numberFormat
+
 	if err := utils.UnmarshalAndValidate(data, envelope); err != nil {
 		return nil, err
 	}
